@@ -6,6 +6,7 @@ import (
 	"fmt"
 	"os"
 	"strings"
+	"sync"
 	"testing"
 
 	"github.com/ohler55/ojg/gen"
@@ -27,15 +28,16 @@ type Case struct {
 	Chunk gx.Chunking `json:"chunk"`
 	Mode  string      `json:"mode"` // single | cb | cbbool | chan
 	Lang  string      `json:"lang"` // json | sen
+	Enum  bool        `json:"enum,omitempty"` // from the small-scope enumeration (not counted for the generator floors)
 }
 
 func TestMain(m *testing.M) {
 	vrt.InitRapid()
 	vrt.RegisterReplay(suite, "agree", Run)
 	suite.Register(classifiers...)
-	suite.Floor("split-inside-token", 0.25, "")
-	suite.Floor("split-inside-escape", 0.02, "")
-	suite.Floor("crosses-4096", 0.02, "")
+	suite.Floor("split-inside-token", 0.25, "generated")
+	suite.Floor("split-inside-escape", 0.02, "generated")
+	suite.Floor("crosses-4096", 0.02, "generated")
 	vrt.Main(m, suite)
 }
 
@@ -351,6 +353,11 @@ func classifySplits(cs Case, c *vrt.Ctx) {
 func isSp(b byte) bool { return b == ' ' || b == '\n' || b == '\t' || b == '\r' || b == ',' }
 
 func Run(cs Case, c *vrt.Ctx) {
+	if cs.Enum {
+		c.Class("enumerated")
+	} else {
+		c.Class("generated")
+	}
 	c.Class("lang:" + cs.Lang)
 	c.Class("mode:" + cs.Mode)
 	classifySplits(cs, c)
@@ -494,7 +501,46 @@ func tagsFor(cs Case, p participant) []string {
 	if p.reader {
 		t = append(t, "reader")
 	}
+	if cs.Lang == "sen" && topLevelComment(cs.Input) {
+		t = append(t, "toplevel-comment-after-value")
+	}
 	return t
+}
+
+// topLevelComment reports a comment start (// or /*) outside every container after some
+// value has begun: the zone of C03-K2.
+func topLevelComment(in []byte) bool {
+	depth, seen := 0, false
+	var quote byte
+	for i := 0; i < len(in); i++ {
+		b := in[i]
+		if quote != 0 {
+			if b == '\\' {
+				i++
+			} else if b == quote {
+				quote = 0
+			}
+			continue
+		}
+		switch b {
+		case '"', '\'':
+			quote = b
+			seen = true
+		case '[', '{':
+			depth++
+			seen = true
+		case ']', '}':
+			depth--
+		case '/':
+			if depth <= 0 && seen && i+1 < len(in) && (in[i+1] == '/' || in[i+1] == '*') {
+				return true
+			}
+		case ' ', '\t', '\n', '\r', ',':
+		default:
+			seen = true
+		}
+	}
+	return false
 }
 
 // matchRef compares documents with the reference decoder; discrepancies that are
@@ -663,6 +709,55 @@ func TestPropRandom(t *testing.T) {
 
 func TestReplay(t *testing.T) { suite.ReplayAll(t) }
 
+// Small-scope enumeration: every sequence of up to four (thorough: five) tokens over a SEN /
+// JSON token alphabet, split into 1, 2 and 3 byte reads, in single and callback mode. Chunk
+// agreement is a differential, it needs no arbiter of the SEN language, so malformed input is
+// in scope here (the byte by byte paths of the SEN parser and tokenizer are separate code
+// from the whole-buffer scans and only malformed or unusual sequences tell them apart).
+var enumTokens = []string{"a", "A0", "0", "-1", "1.5", ":", " ", ",", "[", "]", "{", "}", `"s"`, "'q'", "!", "+", "(", ")", "null", "tru", "\n", "/", "#", "x:", "`", "|"}
+
+func TestEnumSmall(t *testing.T) {
+	max, langs, sizes := 3, []string{"sen"}, []int{1, 2}
+	if vrt.Thorough() {
+		max, langs, sizes = 4, []string{"sen", "json"}, []int{1, 2, 3}
+	}
+	var mu sync.Mutex
+	total := 0
+	vrt.Workers(func(si, sn int) {
+		n := 0
+		var rec func(prefix []byte, depth, idx int)
+		rec = func(prefix []byte, depth, idx int) {
+			if depth > 0 {
+				for _, lang := range langs {
+					for _, mode := range []string{"single", "cb"} {
+						for _, sz := range sizes {
+							if len(prefix) <= sz {
+								continue
+							}
+							vrt.Eval(suite, "agree", Case{Input: append([]byte(nil), prefix...), Chunk: gx.Chunking{Sizes: []int{sz}}, Mode: mode, Lang: lang, Enum: true}, Run)
+							n++
+						}
+					}
+				}
+			}
+			if depth == max {
+				return
+			}
+			for i, tok := range enumTokens {
+				if depth == 0 && i%sn != si {
+					continue
+				}
+				rec(append(append([]byte(nil), prefix...), tok...), depth+1, i)
+			}
+		}
+		rec(nil, 0, 0)
+		mu.Lock()
+		total += n
+		mu.Unlock()
+	})
+	suite.AddExtra("smallscope_cases", int64(total))
+}
+
 func FuzzChunks(f *testing.F) {
 	f.Add([]byte(`{"a":[1,2.5e3,"xé\n",null,true,false],"b":{}}`), uint8(1), uint8(0))
 	f.Add([]byte(`[1] [2] "a" 3 `), uint8(3), uint8(1))
@@ -690,6 +785,15 @@ func FuzzChunks(f *testing.F) {
 }
 
 var classifiers = []vrt.Classifier{
+	// C03-K2: comments outside every container. sen.Parser in single document mode rejects a
+	// comment after the document ("extra characters after close, '/'") that sen.Tokenizer
+	// accepts, and a top level number or bare token directly followed by a comment is dropped
+	// or delivered depending on the entry point and the chunking ("0//c" gives nil without an
+	// error from Parse, 0 from the tokenizer; "a//" gives a from Parse and nothing from a one
+	// byte reader).
+	{ID: "C03-K2", Match: func(d vrt.Disc, c *vrt.Ctx) bool {
+		return (d.Kind == "disagree-value" || d.Kind == "disagree-error") && has(d.Tags, "lang:sen") && has(d.Tags, "toplevel-comment-after-value")
+	}},
 	// C03-K1: gen.Big.Simplify() returns a string (documented: "Simplify the Node into a
 	// string"), so a big number parsed by gen.Parser and simplified is a string where
 	// oj.Parser returns a json.Number.
